@@ -209,7 +209,7 @@ int nsync_mu_wait_with_deadline (nsync_mu *mu,
 		/* Acquire spinlock. */
 		old_word = nsync_spin_test_and_set_ (&mu->word, MU_SPINLOCK,
 			MU_SPINLOCK|MU_WAITING|has_condition, MU_ALL_FALSE);
-		had_waiters = ((old_word & (MU_DESIG_WAKER | MU_WAITING)) == MU_WAITING);
+		had_waiters = ((old_word & MU_WAITING) != 0);
 		/* Queue the waiter. */
 		if (first_wait) {
 			nsync_maybe_merge_conditions_ (nsync_dll_last_ (mu->waiters),
@@ -230,7 +230,13 @@ int nsync_mu_wait_with_deadline (nsync_mu *mu,
 		do {
 			old_word = ATM_LOAD (&mu->word);
 			add_to_acquire = l_type->add_to_acquire;
-			if (((old_word-l_type->add_to_acquire)&MU_ANY_LOCK) == 0 && had_waiters) {
+			/* Whether there is a designated waker must be judged from
+			   the word as it is now:  one that existed when this
+			   thread queued itself may since have acquired in
+			   read mode alongside this thread, released, and
+			   even queued itself again. */
+			if (((old_word-l_type->add_to_acquire)&MU_ANY_LOCK) == 0 && had_waiters &&
+			    (old_word&MU_DESIG_WAKER) == 0) {
 				add_to_acquire = 0; /* release happens in nsync_mu_unlock_slow_ */
 			}
 		} while (!ATM_CAS_REL (&mu->word, old_word,
